@@ -1,6 +1,560 @@
-use crate::worker::Ctx;
+//! C12: totality of everything that reads untrusted text.  Every input in the
+//! enumerated spaces must either load or be rejected with a well-formed
+//! diagnostic; a panic, an abort (unsafe precondition, stack overflow) or a
+//! hang is a violation.  Aborts and hangs kill the worker; the parent
+//! attributes them through the shared-memory marker and resumes the shard.
+
+use crate::worker::{catch, Ctx, Tier};
+use serde_json::{json, Value};
+use vcore::enumerate::{count_upto, for_range, shard_range};
+use vcore::refmanifest::{corpus_attributes, corpus_build_shapes, corpus_sequences, render_canonical};
 use vcore::report::ShardResult;
 
-pub fn run(_ctx: &mut Ctx) -> ShardResult {
-    unimplemented!("engine total")
+pub const TOKENS: &[&str] = &[
+    "build", "rule", "default", "include", "subninja", "pool", "phony", "x", " ", "  ", "\n", ":", "|",
+    "||", "|@", "$", "${", "}", "=", "#", "\0", "\r", "\t", "é", "$\n", "command",
+];
+
+pub fn jobs(tier: Tier) -> Vec<(String, u64)> {
+    let mut j = vec![
+        (format!("total:tokens:{}", tier.pick(5, 6)), 16),
+        (format!("total:bytes:{}", tier.pick(2, 3)), 16),
+        (format!("total:mutate:{}", tier.pick(1, 2)), 16),
+        ("total:columns".into(), 16),
+        ("total:emptypath".into(), 1),
+        ("total:deeppath".into(), 2),
+        (format!("total:include:{}", tier.pick(3, 4)), 16),
+        (format!("total:targets:{}", tier.pick(6, 7)), 16),
+    ];
+    j.extend(crate::eng_depfile::jobs_total(tier));
+    j
+}
+
+/// Validates an error message produced for `input` loaded under the name
+/// `file`.  Returns a description of what is malformed.
+fn check_diagnostic(msg: &str, input: &[u8], files: &[&str]) -> Option<String> {
+    if msg.is_empty() {
+        return Some("empty error message".into());
+    }
+    let Some(rest) = msg.strip_prefix("parse error: ") else {
+        return None; // not a syntax error: any non-empty text will do
+    };
+    let m = rest.as_bytes();
+    // first line: the message; then "<file>:<line>: <excerpt>"; then caret.
+    let lines: Vec<&[u8]> = m.split(|&c| c == b'\n').collect();
+    // The excerpt may itself not contain newlines, but the message can be
+    // anything; locate the location line from the end: [.., loc, caret, ""].
+    if lines.len() < 4 || !lines[lines.len() - 1].is_empty() {
+        return Some(format!("parse error without location/caret lines: {:?}", msg));
+    }
+    let caret = lines[lines.len() - 2];
+    let loc = lines[lines.len() - 3];
+    if caret.is_empty() || *caret.last().unwrap() != b'^' || caret[..caret.len() - 1].iter().any(|&c| c != b' ') {
+        return Some(format!("malformed caret line in {:?}", msg));
+    }
+    let mut found = None;
+    for f in files {
+        let prefix = format!("{}:", f);
+        if loc.starts_with(prefix.as_bytes()) {
+            found = Some(prefix.len());
+        }
+    }
+    let Some(plen) = found else {
+        return Some(format!("location line does not start with a loaded file name: {:?}", msg));
+    };
+    let after = &loc[plen..];
+    let digits = after.iter().take_while(|c| c.is_ascii_digit()).count();
+    if digits == 0 || !after[digits..].starts_with(b": ") {
+        return Some(format!("no line number in {:?}", msg));
+    }
+    let line_no: usize = std::str::from_utf8(&after[..digits]).unwrap().parse().unwrap_or(0);
+    let excerpt = &after[digits + 2..];
+    let prefix_len = plen + digits + 2;
+    if files.len() == 1 {
+        // Single in-memory file: the line and excerpt can be checked.
+        let mut buf = input.to_vec();
+        buf.push(0);
+        let src_lines: Vec<&[u8]> = buf.split(|&c| c == b'\n').collect();
+        if line_no == 0 || line_no > src_lines.len() {
+            return Some(format!("line {} out of range 1..={} in {:?}", line_no, src_lines.len(), msg));
+        }
+        let mut ex = excerpt;
+        if let Some(e) = ex.strip_prefix(b"...") {
+            ex = e;
+        }
+        if let Some(e) = ex.strip_suffix(b"...") {
+            ex = e;
+        }
+        let src = src_lines[line_no - 1];
+        let contained = ex.is_empty() || src.windows(ex.len()).any(|w| w == ex);
+        // An excerpt that legitimately contains "..." text is covered by the
+        // untrimmed comparison.
+        let contained = contained || src.windows(excerpt.len().max(1)).any(|w| w == excerpt);
+        if !contained {
+            return Some(format!("excerpt is not part of line {}: {:?}", line_no, msg));
+        }
+    }
+    let caret_col = caret.len() - 1;
+    if caret_col < prefix_len || caret_col > prefix_len + excerpt.len() {
+        return Some(format!("caret outside the excerpt in {:?}", msg));
+    }
+    None
+}
+
+pub fn class_of(msg: &str) -> String {
+    let first = msg.lines().next().unwrap_or("");
+    let norm = |s: &str| -> String {
+        s.chars()
+            .map(|c| if c.is_ascii_digit() { '#' } else { c })
+            .filter(|c| c.is_ascii_graphic() || *c == ' ')
+            .take(40)
+            .collect()
+    };
+    if let Some(rest) = first.strip_prefix("parse error: ") {
+        // Drop quoted input text so that classes stay few.
+        return format!("parse error: {}", norm(rest.split(['"', '\'']).next().unwrap_or("")));
+    }
+    // Other errors: leading word(s) up to the first path/quote, plus the OS
+    // error text if any.
+    let head = first.split(' ').next().unwrap_or("");
+    let tail = first.rsplit(": ").next().unwrap_or("");
+    if first.starts_with("read ") || first.starts_with("stat ") {
+        return format!("{} <path>: {}", head, norm(tail));
+    }
+    norm(first.split(['"', '\'']).next().unwrap_or(""))
+}
+
+pub fn check_manifest(input: &[u8], files: &[&str], job: &str, res: &mut ShardResult) {
+    res.evaluations += 1;
+    let replay = || json!({"job": job, "kind": "manifest", "bytes": input});
+    match catch(|| n2::verif::load_bytes(files[0], input)) {
+        Err(p) => res.violation(
+            &p.key(),
+            || format!("loading {:?} panicked: {} at {}", String::from_utf8_lossy(input), p.message, p.location),
+            replay,
+        ),
+        Ok(Ok(d)) => {
+            if !d.builds.is_empty() {
+                res.nontrivial += 1;
+            }
+            res.outcome("loaded");
+        }
+        Ok(Err(e)) => {
+            let msg = e.to_string();
+            match check_diagnostic(&msg, input, files) {
+                Some(bad) => res.violation("malformed-diagnostic", || format!("input {:?}: {}", String::from_utf8_lossy(input), bad), replay),
+                None => {
+                    res.nontrivial += 1;
+                    res.outcome(&format!("err:{}", class_of(&msg)));
+                }
+            }
+        }
+    }
+}
+
+fn tokenize(text: &str) -> Vec<String> {
+    let mut out = Vec::new();
+    let mut cur = String::new();
+    for c in text.chars() {
+        if c.is_alphanumeric() || c == '_' || c == '.' || c == '/' || c == '-' {
+            cur.push(c);
+        } else {
+            if !cur.is_empty() {
+                out.push(std::mem::take(&mut cur));
+            }
+            out.push(c.to_string());
+        }
+    }
+    if !cur.is_empty() {
+        out.push(cur);
+    }
+    out
+}
+
+const REPLACEMENTS: &[&str] = &[":", "|", "$", "\n", " ", "=", "#", "${", "\0", "||"];
+
+fn mutate_job(ctx: &mut Ctx, res: &mut ShardResult, depth: usize) {
+    let mut corpus = corpus_build_shapes();
+    corpus.extend(corpus_attributes().into_iter().step_by(5));
+    corpus.extend(corpus_sequences(2));
+    let job = ctx.job.clone();
+    std::fs::write("inc.ninja", "build incout: phony\n").ok();
+    std::fs::write("sub.ninja", "build subout: phony\n").ok();
+    for (idx, set) in corpus.iter().enumerate() {
+        if idx as u64 % ctx.nshards != ctx.shard {
+            continue;
+        }
+        let (text, _) = render_canonical(&set.files[0].1);
+        let toks = tokenize(&text);
+        let apply = |muts: &[(usize, u8, usize)], res: &mut ShardResult| {
+            let mut out = String::new();
+            for (i, t) in toks.iter().enumerate() {
+                match muts.iter().find(|m| m.0 == i) {
+                    None => out.push_str(t),
+                    Some(&(_, 0, _)) => {}
+                    Some(&(_, 1, _)) => {
+                        out.push_str(t);
+                        out.push_str(t);
+                    }
+                    Some(&(_, _, r)) => out.push_str(REPLACEMENTS[r]),
+                }
+            }
+            ctx.marker.set(idx as u64, out.as_bytes());
+            check_manifest(out.as_bytes(), &["build.ninja", "inc.ninja", "sub.ninja"], &job, res);
+            out
+        };
+        let mut single: Vec<(usize, u8, usize)> = Vec::new();
+        for i in 0..toks.len() {
+            single.push((i, 0, 0));
+            single.push((i, 1, 0));
+            for r in 0..REPLACEMENTS.len() {
+                single.push((i, 2, r));
+            }
+        }
+        for (n, m) in single.iter().enumerate() {
+            let out = apply(&[*m], res);
+            if idx % 400 == 0 && n == 17 {
+                res.sample(|| json!({"mutated_manifest": out}));
+            }
+        }
+        // Without the final newline, and cut at every token boundary.
+        for cut in 0..toks.len() {
+            let out: String = toks[..cut].concat();
+            ctx.marker.set(idx as u64, out.as_bytes());
+            check_manifest(out.as_bytes(), &["build.ninja", "inc.ninja", "sub.ninja"], &job, res);
+        }
+        if depth >= 2 {
+            // All pairs of (delete | replace-by-'$' | replace-by-newline).
+            let light: Vec<(u8, usize)> = vec![(0, 0), (2, 2), (2, 3)];
+            for i in 0..toks.len() {
+                for j in (i + 1)..toks.len() {
+                    for a in &light {
+                        for b in &light {
+                            apply(&[(i, a.0, a.1), (j, b.0, b.1)], res);
+                        }
+                    }
+                }
+            }
+        }
+    }
+}
+
+fn columns_job(ctx: &mut Ctx, res: &mut ShardResult) {
+    let units = ["a", "é", "€", "😀", "aé", "a€", "a😀", "é€"];
+    let job = ctx.job.clone();
+    let mut idx = 0u64;
+    let mut run = |text: String, res: &mut ShardResult| {
+        idx += 1;
+        if idx % ctx.nshards != ctx.shard {
+            return;
+        }
+        ctx.marker.set(idx, text.as_bytes());
+        check_manifest(text.as_bytes(), &["build.ninja"], &job, res);
+        if idx % 9973 == 0 {
+            res.sample(|| json!({"manifest": text}));
+        }
+    };
+    for unit in units {
+        for lead in 0..4usize {
+            let mut lens: Vec<usize> = (1..=70).collect();
+            lens.extend([4085, 4090, 4094, 4095, 4096, 4097]);
+            for &len in &lens {
+                let mut s = "a".repeat(lead);
+                while s.len() < len {
+                    s.push_str(unit);
+                }
+                // error at the end of a long line (missing colon)
+                run(format!("build {}\n", s), res);
+                // error at the start, long tail
+                run(format!(" {}\n", s), res);
+                // error in the middle, long head and tail
+                if len <= 70 {
+                    for tail in [0usize, 10, 30, 50] {
+                        let t: String = std::iter::repeat(unit).take(tail).collect();
+                        run(format!("build {}$~{}\n", s, t), res);
+                        run(format!("rule r\n  command = {}${{{}\n", s, t), res);
+                        run(format!("build {}: phony\n{} = 1\n  {}\n", "o", "v", s), res);
+                    }
+                }
+            }
+        }
+    }
+}
+
+fn emptypath_job(ctx: &mut Ctx, res: &mut ShardResult) {
+    let job = ctx.job.clone();
+    std::fs::write("x", "build fromx: phony\n").ok();
+    let mut cases: Vec<String> = Vec::new();
+    for e in ["$e", "${e}", "$e$e"] {
+        for (pre, post) in [("", ""), ("a ", ""), ("", " b")] {
+            let p = format!("{}{}{}", pre, e, post);
+            cases.push(format!("rule r\n  command = c\nbuild {}: r\n", p));
+            cases.push(format!("rule r\n  command = c\nbuild o | {}: r\n", p));
+            cases.push(format!("rule r\n  command = c\nbuild o: r {}\n", p));
+            cases.push(format!("rule r\n  command = c\nbuild o: r | {}\n", p));
+            cases.push(format!("rule r\n  command = c\nbuild o: r || {}\n", p));
+            cases.push(format!("rule r\n  command = c\nbuild o: r |@ {}\n", p));
+            cases.push(format!("build o: phony\ndefault {}\n", p));
+        }
+        cases.push(format!("include {}\n", e));
+        cases.push(format!("subninja {}\n", e));
+        cases.push(format!("e =\nbuild {}: phony\n", e));
+        cases.push(format!("build o: phony {}\n  e =\n", e));
+    }
+    for (i, c) in cases.iter().enumerate() {
+        ctx.marker.set(i as u64, c.as_bytes());
+        check_manifest(c.as_bytes(), &["build.ninja", "x"], &job, res);
+    }
+    res.sample(|| json!({"manifest": cases[0]}));
+}
+
+fn deeppath_job(ctx: &mut Ctx, res: &mut ShardResult) {
+    let job = ctx.job.clone();
+    let mut idx = 0u64;
+    for n in 58..=66usize {
+        for sep in ["/", "\\"] {
+            let p = vec!["a"; n].join(sep);
+            for text in [
+                format!("build {}: phony\n", p),
+                format!("build o: phony {}\n", p),
+                format!("build o: phony\ndefault {}\n", p),
+                format!("include {}\n", p),
+                format!("build o: phony | x/../{}\n", p),
+            ] {
+                idx += 1;
+                if idx % ctx.nshards != ctx.shard {
+                    continue;
+                }
+                ctx.marker.set(idx, text.as_bytes());
+                check_manifest(text.as_bytes(), &["build.ninja"], &job, res);
+            }
+        }
+    }
+}
+
+/// Included files: every token sequence up to a bound as the content of an
+/// included / subninja'd file on disk, plus files that include themselves or
+/// each other.
+fn include_job(ctx: &mut Ctx, res: &mut ShardResult, max: u32) {
+    let job = ctx.job.clone();
+    let toks: Vec<&str> = {
+        let mut t: Vec<&str> = TOKENS.to_vec();
+        t.push("inc.ninja");
+        t.push("build.ninja");
+        t
+    };
+    let k = toks.len() as u64;
+    let total = count_upto(k, 0, max);
+    let (lo, hi) = shard_range(total, ctx.shard, ctx.nshards);
+    let mut buf = Vec::new();
+    for_range(k, 0, max, lo, hi, |idx, seq| {
+        if ctx.skip(idx) {
+            return;
+        }
+        buf.clear();
+        for &s in seq {
+            buf.extend_from_slice(toks[s as usize].as_bytes());
+        }
+        buf.push(b'\n');
+        ctx.marker.set(idx, &buf);
+        std::fs::write("inc.ninja", &buf).expect("write inc");
+        // build.ninja on disk is what a nested `include build.ninja` reads.
+        for main in ["include inc.ninja\n", "subninja inc.ninja\n"] {
+            std::fs::write("build.ninja", main).expect("write main");
+            res.evaluations += 1;
+            let rp = || json!({"job": job, "kind": "include", "main": main, "inc": buf});
+            match catch(|| n2::verif::load_bytes("build.ninja", main.as_bytes())) {
+                Err(p) => res.violation(
+                    &p.key(),
+                    || format!("{:?} with inc.ninja = {:?} panicked: {} at {}", main, String::from_utf8_lossy(&buf), p.message, p.location),
+                    rp,
+                ),
+                Ok(Ok(_)) => res.outcome("loaded"),
+                Ok(Err(e)) => {
+                    let msg = e.to_string();
+                    match check_diagnostic(&msg, &buf, &["inc.ninja", "build.ninja"]) {
+                        Some(bad) => res.violation("malformed-diagnostic", || format!("inc.ninja {:?}: {}", String::from_utf8_lossy(&buf), bad), rp),
+                        None => {
+                            res.nontrivial += 1;
+                            res.outcome(&format!("err:{}", class_of(&msg)));
+                        }
+                    }
+                }
+            }
+        }
+        if idx % 20_011 == 0 {
+            let b = buf.clone();
+            res.sample(|| json!({"inc.ninja": String::from_utf8_lossy(&b)}));
+        }
+    });
+}
+
+/// Command-line target strings against a small all-phony graph.
+fn targets_job(ctx: &mut Ctx, res: &mut ShardResult, max: u32) {
+    crate::exec::install_hooks();
+    let job = ctx.job.clone();
+    let alpha = ["a", ".", "/", "\\", "é"];
+    let k = alpha.len() as u64;
+    let total = count_upto(k, 0, max);
+    let (lo, hi) = shard_range(total, ctx.shard, ctx.nshards);
+    crate::exec::clear_dir();
+    std::fs::write("build.ninja", "build a: phony\nbuild a/a: phony a\nbuild é: phony\n").unwrap();
+    let mut t = String::new();
+    for_range(k, 0, max, lo, hi, |idx, seq| {
+        if ctx.skip(idx) {
+            return;
+        }
+        t.clear();
+        for &s in seq {
+            t.push_str(alpha[s as usize]);
+        }
+        ctx.marker.set(idx, t.as_bytes());
+        res.evaluations += 1;
+        let target = t.clone();
+        let r = catch(|| {
+            n2::verif::verif_build(n2::verif::BuildOpts {
+                targets: vec![target],
+                parallelism: 1,
+                ..Default::default()
+            })
+        });
+        let rp = || json!({"job": job, "kind": "target", "target": t});
+        match r {
+            Err(p) => res.violation(&p.key(), || format!("target {:?} panicked: {} at {}", t, p.message, p.location), rp),
+            Ok(Ok(Some(0))) => {
+                res.nontrivial += 1;
+                res.outcome("target-known")
+            }
+            Ok(Ok(other)) => res.violation("target-unexpected-result", || format!("target {:?}: {:?}", t, other), rp),
+            Ok(Err(e)) => {
+                let msg = e.to_string();
+                if msg.is_empty() {
+                    res.violation("malformed-diagnostic", || format!("target {:?}: empty error", t), rp);
+                } else {
+                    res.outcome(&format!("err:{}", class_of(&msg)));
+                }
+            }
+        }
+        if idx % 9973 == 0 {
+            res.sample(|| json!({"target": t}));
+        }
+    });
+    let _ = std::fs::remove_file(".n2_db");
+}
+
+pub fn run(ctx: &mut Ctx) -> ShardResult {
+    let mut res = ShardResult::default();
+    let job = ctx.job.clone();
+    if let Some(case) = ctx.replay.clone() {
+        let bytes = |v: &Value| -> Vec<u8> {
+            v.as_array().map(|a| a.iter().map(|x| x.as_u64().unwrap_or(0) as u8).collect()).unwrap_or_default()
+        };
+        match case["kind"].as_str().unwrap_or("manifest") {
+            "manifest" => {
+                std::fs::write("inc.ninja", "build incout: phony\n").ok();
+                std::fs::write("sub.ninja", "build subout: phony\n").ok();
+                std::fs::write("x", "build fromx: phony\n").ok();
+                let b = bytes(&case["bytes"]);
+                check_manifest(&b, &["build.ninja", "inc.ninja", "sub.ninja", "x"], &job, &mut res);
+            }
+            "include" => {
+                let inc = bytes(&case["inc"]);
+                let main = case["main"].as_str().unwrap_or("").to_string();
+                std::fs::write("inc.ninja", &inc).unwrap();
+                std::fs::write("build.ninja", &main).unwrap();
+                res.evaluations += 1;
+                match catch(|| n2::verif::load_bytes("build.ninja", main.as_bytes())) {
+                    Err(p) => res.violation(&p.key(), || format!("panicked: {} at {}", p.message, p.location), || case.clone()),
+                    Ok(Err(e)) => {
+                        if let Some(bad) = check_diagnostic(&e.to_string(), &inc, &["inc.ninja", "build.ninja"]) {
+                            res.violation("malformed-diagnostic", || bad, || case.clone());
+                        }
+                    }
+                    Ok(Ok(_)) => {}
+                }
+            }
+            "target" => {
+                crate::exec::install_hooks();
+                std::fs::write("build.ninja", "build a: phony\nbuild a/a: phony a\nbuild é: phony\n").unwrap();
+                let t = case["target"].as_str().unwrap_or("").to_string();
+                res.evaluations += 1;
+                let tt = t.clone();
+                match catch(|| {
+                    n2::verif::verif_build(n2::verif::BuildOpts {
+                        targets: vec![tt],
+                        parallelism: 1,
+                        ..Default::default()
+                    })
+                }) {
+                    Err(p) => res.violation(&p.key(), || format!("target {:?} panicked: {} at {}", t, p.message, p.location), || case.clone()),
+                    _ => {}
+                }
+            }
+            other => panic!("unknown total replay kind {}", other),
+        }
+        return res;
+    }
+    let parts: Vec<&str> = job.split(':').collect();
+    let num = |i: usize| -> u32 { parts.get(i).and_then(|s| s.parse().ok()).expect("job parameter") };
+    match parts[1] {
+        "tokens" => {
+            std::fs::write("x", "build fromx: phony\n").ok();
+            let max = num(2);
+            let k = TOKENS.len() as u64;
+            let total = count_upto(k, 0, max);
+            let (lo, hi) = shard_range(total, ctx.shard, ctx.nshards);
+            let mut buf = Vec::new();
+            for_range(k, 0, max, lo, hi, |idx, seq| {
+                if ctx.skip(idx) {
+                    return;
+                }
+                buf.clear();
+                for &s in seq {
+                    buf.extend_from_slice(TOKENS[s as usize].as_bytes());
+                }
+                ctx.marker.set(idx, &buf);
+                check_manifest(&buf, &["build.ninja", "x"], &job, &mut res);
+                buf.push(b'\n');
+                ctx.marker.set(idx, &buf);
+                check_manifest(&buf, &["build.ninja", "x"], &job, &mut res);
+                if idx % 1_000_003 == 0 {
+                    let b = buf.clone();
+                    res.sample(|| json!({"manifest": String::from_utf8_lossy(&b)}));
+                }
+            });
+        }
+        "bytes" => {
+            let max = num(2);
+            let total = count_upto(256, 0, max);
+            let (lo, hi) = shard_range(total, ctx.shard, ctx.nshards);
+            let mut seq = Vec::new();
+            for idx in lo..hi {
+                if ctx.skip(idx) {
+                    continue;
+                }
+                // lengths 0..=max over 256 symbols do not fit the u8 odometer
+                // helper (k = 256 symbols is fine: digits are 0..=255).
+                vcore::enumerate::decode_upto(256, 0, max, idx, &mut seq);
+                ctx.marker.set(idx, &seq);
+                check_manifest(&seq, &["build.ninja"], &job, &mut res);
+            }
+        }
+        "mutate" => mutate_job(ctx, &mut res, num(2) as usize),
+        "columns" => columns_job(ctx, &mut res),
+        "emptypath" => emptypath_job(ctx, &mut res),
+        "deeppath" => deeppath_job(ctx, &mut res),
+        "include" => include_job(ctx, &mut res, num(2)),
+        "targets" => targets_job(ctx, &mut res, num(2)),
+        other => panic!("unknown total job {}", other),
+    }
+    res
+}
+
+pub fn case_from_marker(job: &str, bytes: &[u8]) -> Value {
+    let parts: Vec<&str> = job.split(':').collect();
+    match parts.get(1).copied() {
+        Some("include") => json!({"job": job, "kind": "include", "main": "include inc.ninja\n", "inc": bytes}),
+        Some("targets") => json!({"job": job, "kind": "target", "target": String::from_utf8_lossy(bytes)}),
+        _ => json!({"job": job, "kind": "manifest", "bytes": bytes}),
+    }
 }
